@@ -387,6 +387,19 @@ pub fn gen_dataset(r: &mut Rng, shape: usize, big: bool) -> Vec<Q> {
             }
         }
     }
+    // one spelling per language-tagged literal inside one dataset: the in-memory stores intern terms modulo
+    // Term::eq (tags compared case-insensitively) and keep the first spelling they see, so a dataset holding
+    // "x"@en and "x"@EN would be a different dataset (tags are compared literally by C05) after each insertion order
+    let mut spelling: Vec<(String, String, ST)> = vec![];
+    let mut norm = |t: &ST| -> ST {
+        if let sophia_api::term::SimpleTerm::LiteralLanguage(l, tag) = t {
+            let key = (l.to_string(), tag.as_str().to_ascii_lowercase());
+            if let Some(x) = spelling.iter().find(|x| x.0 == key.0 && x.1 == key.1) { return x.2.clone(); }
+            spelling.push((key.0, key.1, t.clone()));
+        }
+        t.clone()
+    };
+    let v: Vec<Q> = v.iter().map(|q| ([norm(&q.0[0]), norm(&q.0[1]), norm(&q.0[2])], q.1.as_ref().map(|g| norm(g)))).collect();
     dedup(&v)
 }
 
